@@ -82,10 +82,16 @@ def get_count():
     return _Counter.count
 
 
-def make_reader(src, ignore_comments=True, file_path=None, **kw):
+def make_reader(src, ignore_comments=True, file_path=None, source_form=None, **kw):
+    """source_form: None = auto-detect (default), 'fix' / 'free' = set explicitly after construction."""
     if file_path is not None:
-        return FortranFileReader(file_path, ignore_comments=ignore_comments, **kw)
-    return FortranStringReader(src, ignore_comments=ignore_comments, **kw)
+        reader = FortranFileReader(file_path, ignore_comments=ignore_comments, **kw)
+    else:
+        reader = FortranStringReader(src, ignore_comments=ignore_comments, **kw)
+    if source_form is not None:
+        from fparser.common.sourceinfo import FortranFormat
+        reader.set_format(FortranFormat(source_form == "free", False))
+    return reader
 
 
 _last_std = [None]
